@@ -225,6 +225,7 @@ def check_property(prop, tier, seed):
         ],
         "solver_ms_total": sum(o.get("ms", 0) or 0 for o in obligations),
         "vacuity": pv.get("vacuity", {}),
+        "primitive_validation": pv.get("primitive_validation", {}),
         "dropped_by_extraction": pv.get("dropped", ""),
         "lean": ln,
         "bounded": {k: rt.get(k) for k in ("evaluations", "distinct", "distinct_nontrivial", "rule", "bounds",
